@@ -474,8 +474,11 @@ def _strategy(maxdepth, with_order):
             tasks.append({"main": main, "x": "ABC"[n]})
         case = {"t": T, "tg": tg, "tasks": tasks}
         if with_order:
-            case["order"] = draw(st.lists(st.integers(0, ntasks - 1), min_size=0, max_size=30))
-            case["drain"] = draw(st.sampled_from(["seq", "rr"]))
+            # a batch: the same template set under several long random release orders
+            case["orders"] = [
+                [draw(st.lists(st.integers(0, ntasks - 1), min_size=0, max_size=30)), draw(st.sampled_from(["seq", "rr"]))]
+                for _ in range(ORDERS_PER_DRAW)
+            ]
         return case
 
     return cases()
@@ -502,10 +505,11 @@ def orders_for(gates, maxlen):
     yield from rec([], list(gates))
 
 
-SETS_QUICK = 30  # per shard: template sets whose orders are enumerated
-SETS_THOROUGH = 40
-RANDOM_QUICK = 1500  # per shard: Hypothesis-drawn (set, long order) cases
-RANDOM_THOROUGH = 12000
+ORDERS_PER_DRAW = 4
+SETS_QUICK = 130  # per shard: template sets whose orders are enumerated
+SETS_THOROUGH = 150
+RANDOM_QUICK = 1700  # per shard: Hypothesis-drawn template sets, each run under ORDERS_PER_DRAW long random orders
+RANDOM_THOROUGH = 9000
 
 
 def shards(tier):
@@ -519,12 +523,7 @@ def run_shard(spec, ctx):
     rec = core.Rec()
     maxlen = {2: ctx.pick(6, 8), 3: ctx.pick(5, 7)}
 
-    @hypothesis.seed(ctx.derive("enum"))
-    @settings(max_examples=ctx.pick(SETS_QUICK, SETS_THOROUGH), database=None, deadline=None, derandomize=False,
-              report_multiple_bugs=False, suppress_health_check=list(HealthCheck), phases=[Phase.generate, Phase.shrink],
-              print_blob=False, verbosity=hypothesis.Verbosity.quiet)
-    @given(_strategy(3, False))
-    def test(base):
+    def enum_orders(base):
         rec.extra["template_sets_enumerated"] = rec.extra.get("template_sets_enumerated", 0) + 1
         src = sources(base)
         gates = [_solo(base, src, ti)[1] for ti in range(len(base["tasks"]))]
@@ -533,15 +532,38 @@ def run_shard(spec, ctx):
             for drain in drains:
                 rec.run(check_case, dict(base, order=order, drain=drain), reraise=True)
 
-    nviol = len(rec.violations)
-    try:
-        test()
-    except core.Violation:
-        last = rec.violations[-1]
-        del rec.violations[nviol:]
-        rec.violations.append(last)
-    if not rec.violations:
-        core.hyp_shard(_strategy(ctx.pick(3, 4), True), check_case, ctx, ctx.pick(RANDOM_QUICK, RANDOM_THOROUGH), rec=rec, tag="rand")
+    def random_orders(batch):
+        rec.extra["template_sets_random_orders"] = rec.extra.get("template_sets_random_orders", 0) + 1
+        base = {k: v for k, v in batch.items() if k != "orders"}
+        for order, drain in batch["orders"]:
+            rec.run(check_case, dict(base, order=order, drain=drain), reraise=True)
+
+    plan = [
+        ("enum", _strategy(3, False), ctx.pick(SETS_QUICK, SETS_THOROUGH), enum_orders),
+        ("rand", _strategy(ctx.pick(3, 4), True), ctx.pick(RANDOM_QUICK, RANDOM_THOROUGH), random_orders),
+    ]
+    def make_test(tag, strategy, n, body):
+        @hypothesis.seed(ctx.derive(tag))
+        @settings(max_examples=n, database=None, deadline=None, derandomize=False, report_multiple_bugs=False,
+                  suppress_health_check=list(HealthCheck), phases=[Phase.generate, Phase.shrink], print_blob=False,
+                  verbosity=hypothesis.Verbosity.quiet)
+        @given(strategy)
+        def test(x):
+            body(x)
+
+        return test
+
+    for tag, strategy, n, body in plan:
+        if rec.violations:
+            break
+        test = make_test(tag, strategy, n, body)
+        nviol = len(rec.violations)
+        try:
+            test()
+        except core.Violation:
+            last = rec.violations[-1]
+            del rec.violations[nviol:]
+            rec.violations.append(last)
     return rec
 
 
